@@ -858,6 +858,16 @@ func writeDynamic(rng Rand, w *BitWriter, toks []Tok, outBefore int, shape int, 
 		seq = append(seq, rle{16, rng.Intn(4), 2})
 		// decoder will fail here; what follows does not matter
 	}
+	crossRun := -1
+	if fault == FaultRunPast && ndist <= 3 && rng.Intn(2) == 0 {
+		// variant: a repeat-previous run that starts in the last literal/length
+		// positions, crosses into the distance section and overshoots it
+		k := rng.Intn(4)
+		if nlen-k > 1 {
+			crossRun = nlen - k
+			all = all[:crossRun]
+		}
+	}
 	for i < len(all) {
 		v := all[i]
 		run := 1
@@ -894,7 +904,17 @@ func writeDynamic(rng Rand, w *BitWriter, toks []Tok, outBefore int, shape int, 
 		seq = append(seq, rle{v, 0, 0})
 		i++
 	}
-	if fault == FaultRunPast && len(seq) > 0 {
+	if crossRun >= 0 {
+		need := nlen + ndist - crossRun // positions left; the run must exceed them
+		rep := need + 1 + rng.Intn(3)
+		if rep < 3 {
+			rep = 3
+		}
+		if rep > 6 {
+			rep = 6
+		}
+		seq = append(seq, rle{16, rep - 3, 2})
+	} else if fault == FaultRunPast && len(seq) > 0 {
 		// replace the last element by a run that starts inside the declared
 		// count and overshoots it
 		last := seq[len(seq)-1]
